@@ -41,6 +41,7 @@ ENV.pop("GOMAXPROCS", None)
 BUILD_FLAGS = {
     "race": ["-race", "-tags", "verif"],
     "ptr": ["-tags", "verif", "-gcflags=all=-d=checkptr"],
+    "asan": ["-asan", "-tags", "verif"],  # thorough tier only (first build ~90 s): unsafe byte addressing in z/
 }
 
 
@@ -63,16 +64,16 @@ def plan(pid, tier):
         "C05": [job("C05X", "race", timeout=1500, parts=8), job("GATED", "race", arg="C05", timeout=1500, parts=4), job("C05S", "race", timeout=1500, parts=6)],
         "C06": [job("GATED", "race", arg="C06", timeout=1500, parts=8), job("C14", "race", arg="C06", timeout=1500, parts=2)],
         "C14": [job("C14", "race", timeout=1500, parts=4)],
-        "C15": [job("GATED", "race", arg="C15", timeout=1500, parts=8), job("C15S", "race", timeout=1500, parts=4)],
+        "C15": [job("GATED", "race", arg="C15", timeout=1500, parts=8), job("C15S", "race", timeout=1500, parts=4), job("C15D", "race", timeout=900, parts=2)],
         "C07": [job("C07", "race", timeout=1500, parts=4)],
         "C08": [job("C08", "race", timeout=1500, parts=8)] + ([job("C08", "race", timeout=1500, parts=4, procs=p) for p in (1, 2, 4)] if T else []),
         "C09": [job("C09", "race", timeout=1500, parts=8)],
-        "C10": [job("C10", "ptr", timeout=1500, parts=6)],
-        "C11": [job("C11", "ptr", timeout=1500, parts=8)],
+        "C10": [job("C10", "ptr", timeout=1500, parts=6)] + ([job("C10", "asan", timeout=1500, parts=6)] if T else []),
+        "C11": [job("C11", "ptr", timeout=1500, parts=8)] + ([job("C11", "asan", timeout=1500, parts=4)] if T else []),
         "C12": [job("C12", "race", timeout=1500, parts=6), job("C12", "ptr", arg="bulk", timeout=1500, parts=6)],
         "C16": [job("C16", "ptr", timeout=1500, parts=6)],
         "C18": [job("C18", "ptr", timeout=1800, parts=8 if T else 2)],
-        "C19": [job("C19", "ptr", timeout=900, parts=4 if T else 2)],
+        "C19": [job("C19", "ptr", timeout=900, parts=4 if T else 2)] + ([job("C19", "asan", timeout=900, parts=2)] if T else []),
         "C20": [job("C20", "ptr", timeout=600)],
     }
     return P.get(pid)
@@ -130,7 +131,7 @@ def build(kinds):
 def classify_crash(log, journal_tail):
     """Returns (kind, signature, detail). kind in {'library','harness','timeout','unknown'}."""
     txt = log[-400000:]
-    m = re.search(r"^(panic: .*|fatal error: .*|SIGSEGV.*|SIGBUS.*|unexpected fault address.*|.*Assertion failure.*)$", txt, re.M)
+    m = re.search(r"^(panic: .*|fatal error: .*|SIGSEGV.*|SIGBUS.*|unexpected fault address.*|.*Assertion failure.*|==\d+==ERROR: AddressSanitizer.*)$", txt, re.M)
     head = m.group(1).strip() if m else ""
     # first stack after the head
     tail = txt[m.start():] if m else txt
@@ -144,6 +145,9 @@ def classify_crash(log, journal_tail):
     if "Assertion failure" in head or "Assertion failure" in txt[-5000:]:
         # z.assert -> log.Fatalf: no goroutine dump; the frame comes from the %+v error (none) so use journal only
         return ("library", "crash/assert", "z assert (log.Fatalf): " + head)
+    if "AddressSanitizer" in head:
+        fr = re.findall(r"(github\.com/dgraph-io/ristretto/v2[\w./()*\[\]]+)", tail)
+        return ("library", "crash/asan:%s" % (fr[0][len(MOD):] if fr else "?"), head)
     if libframe:
         return ("library", "crash/%s:%s" % (libframe, cls), head + " in " + libframe)
     if head:
